@@ -341,7 +341,9 @@ func ExecRPlan(p *RPlan, trace bool) *core.Result {
 					fmt.Sprintf("audit(1500000000.000:%d: id=%d", sq, i), fmt.Sprintf("audit(1500000000.000:%dz): id=%d", sq, i),
 					fmt.Sprintf("node=host(1) audit(1500000000.000:%d): id=%d", sq, i),
 					fmt.Sprintf("audit(1500000000.000:%d): id=%d", 1<<32+uint64(sq), i), fmt.Sprintf("audit(1500000000.000:-%d): id=%d", uint64(sq)+1, i),
-					fmt.Sprintf("audit(1500000000.000:%d): id=%d", 5<<32+uint64(sq), i)}[int(op.Typ)%nBadRaw]
+					fmt.Sprintf("audit(1500000000.000:%d): id=%d", 5<<32+uint64(sq), i),
+					// 2^64 + sequence: twenty digits that wrap a 64-bit accumulator back onto the stream's own number
+					fmt.Sprintf("audit(1500000000.000:1844674407%010d): id=%d", 3709551616+uint64(sq), i)}[int(op.Typ)%nBadRaw]
 				callErr = ra.Push(auparse.AuditMessageType(tSYSCALL), []byte(bad))
 				if v := int(op.Typ) % nBadRaw; callErr == nil && (v == 4 || v >= 11) {
 					// a well-formed header whose sequence number is not a 32-bit number: whatever
